@@ -39,8 +39,10 @@ pub struct GBuf<T: Elem> {
     data: *mut u8,
     #[cfg(not(miri))]
     data_len: usize,
+    #[cfg(not(miri))]
+    ro: std::cell::Cell<bool>,
     #[cfg(miri)]
-    _store: Vec<Complex<T>>,
+    _store: Vec<T>,
 }
 unsafe impl<T: Elem> Send for GBuf<T> {}
 unsafe impl<T: Elem> Sync for GBuf<T> {}
@@ -61,27 +63,46 @@ impl<T: Elem> GBuf<T> {
             _ => 0,
         };
         let pg = page();
-        let data_len = ((bytes + shift + pg - 1) / pg).max(1) * pg;
+        // size classes (power-of-two page counts) so that mappings can be reused across calls: fresh anonymous
+        // pages are expensive in this VM, and a reused mapping keeps its guard pages
+        let data_len = ((bytes + shift + pg - 1) / pg).max(1).next_power_of_two() * pg;
         let map_len = data_len + 2 * pg;
         unsafe {
-            let map = libc::mmap(
-                std::ptr::null_mut(),
-                map_len,
-                libc::PROT_NONE,
-                libc::MAP_PRIVATE | libc::MAP_ANONYMOUS,
-                -1,
-                0,
-            );
-            if map == libc::MAP_FAILED {
-                eprintln!("rfsim: mmap of {} bytes failed", map_len);
-                std::process::exit(2);
-            }
-            let map = map as *mut u8;
+            let pooled = {
+                let mut pool = POOL.lock().unwrap();
+                match pool.iter().position(|(l, _)| *l == data_len) {
+                    Some(i) => {
+                        let (_, p) = pool.swap_remove(i);
+                        POOL_BYTES.fetch_sub(map_len as u64, Ordering::Relaxed);
+                        Some(p as *mut u8)
+                    }
+                    None => None,
+                }
+            };
+            let map = match pooled {
+                Some(m) => m,
+                None => {
+                    let map = libc::mmap(
+                        std::ptr::null_mut(),
+                        map_len,
+                        libc::PROT_NONE,
+                        libc::MAP_PRIVATE | libc::MAP_ANONYMOUS,
+                        -1,
+                        0,
+                    );
+                    if map == libc::MAP_FAILED {
+                        eprintln!("rfsim: mmap of {} bytes failed", map_len);
+                        std::process::exit(2);
+                    }
+                    let map = map as *mut u8;
+                    if libc::mprotect(map.add(pg) as *mut _, data_len, libc::PROT_READ | libc::PROT_WRITE) != 0 {
+                        eprintln!("rfsim: mprotect failed");
+                        std::process::exit(2);
+                    }
+                    map
+                }
+            };
             let data = map.add(pg);
-            if libc::mprotect(data as *mut _, data_len, libc::PROT_READ | libc::PROT_WRITE) != 0 {
-                eprintln!("rfsim: mprotect failed");
-                std::process::exit(2);
-            }
             std::ptr::write_bytes(data, CANARY, data_len);
             let start = match place {
                 Place::Right | Place::RightMis => data.add(data_len - shift - bytes),
@@ -95,14 +116,22 @@ impl<T: Elem> GBuf<T> {
                 map_len,
                 data,
                 data_len,
+                ro: std::cell::Cell::new(false),
             }
         }
     }
     #[cfg(miri)]
-    pub fn new(len: usize, _place: Place) -> Self {
-        let mut store = vec![Complex::new(T::of(0.0), T::of(0.0)); len];
+    pub fn new(len: usize, place: Place) -> Self {
+        // backing store of scalars with one spare, so that the *Mis placements can start the buffer on the weakest
+        // legal alignment (address = align mod 2*align) whatever address the interpreter's allocator picked
+        let mut store = vec![T::of(0.0); 2 * len + 1];
+        let align = std::mem::align_of::<Complex<T>>();
+        let base = store.as_mut_ptr();
+        let base_mis = (base as usize) % (2 * align) != 0;
+        let want_mis = matches!(place, Place::RightMis | Place::LeftMis);
+        let off = if base_mis == want_mis { 0 } else { 1 };
         GBuf {
-            ptr: store.as_mut_ptr(),
+            ptr: unsafe { base.add(off) } as *mut Complex<T>,
             len,
             _store: store,
         }
@@ -138,11 +167,17 @@ impl<T: Elem> GBuf<T> {
         #[cfg(not(miri))]
         unsafe {
             libc::mprotect(self.data as *mut _, self.data_len, libc::PROT_READ);
+            self.ro.set(true);
         }
     }
     pub fn protect_rw(&self) {
         #[cfg(not(miri))]
+        if !self.ro.get() {
+            return;
+        }
+        #[cfg(not(miri))]
         unsafe {
+            self.ro.set(false);
             libc::mprotect(
                 self.data as *mut _,
                 self.data_len,
@@ -180,10 +215,25 @@ impl<T: Elem> Drop for GBuf<T> {
     fn drop(&mut self) {
         #[cfg(not(miri))]
         unsafe {
-            libc::munmap(self.map as *mut _, self.map_len);
+            if POOL_BYTES.load(Ordering::Relaxed) + (self.map_len as u64) < POOL_CAP {
+                if self.ro.get() {
+                    libc::mprotect(self.data as *mut _, self.data_len, libc::PROT_READ | libc::PROT_WRITE);
+                }
+                POOL.lock().unwrap().push((self.data_len, self.map as usize));
+                POOL_BYTES.fetch_add(self.map_len as u64, Ordering::Relaxed);
+            } else {
+                libc::munmap(self.map as *mut _, self.map_len);
+            }
         }
     }
 }
+
+#[cfg(not(miri))]
+static POOL: std::sync::Mutex<Vec<(usize, usize)>> = std::sync::Mutex::new(Vec::new());
+#[cfg(not(miri))]
+static POOL_BYTES: AtomicU64 = AtomicU64::new(0);
+#[cfg(not(miri))]
+const POOL_CAP: u64 = 512 << 20;
 
 #[cfg(not(miri))]
 fn wr(buf: &[u8]) {
